@@ -10,6 +10,7 @@ import (
 
 	"github.com/cilium/statedb"
 
+	"verifharness/hookctl"
 	"verifharness/vkit"
 )
 
@@ -26,6 +27,9 @@ type Opts struct {
 	Report         map[string]bool // violation classes to report: ret, query, frozen, rev, changes, abort
 	SchemaPick     []int           // indexes into Schemas to choose from (nil = all)
 	AbortPct       int
+	Ctl            *hookctl.Ctl    // hook controller (needed for ForceGC)
+	Quiesce        bool            // drain + bounded-collection checks (C08)
+	ForceGC        bool            // pause the collector between its scan and its write transaction and mutate the table meanwhile
 	Sleep          func()          // lets virtual time pass (GC rounds); nil = no-op
 	OnSim          func(*Sim) func() // called with each new Sim; the returned function is called when the history ends
 }
@@ -37,6 +41,7 @@ type simTable struct {
 	committed *TableModel
 	iters     []*simIter
 	delLog    []delEntry
+	settled   bool // no iterator open and the graveyard was observed empty since the last one closed
 }
 
 type snapshot struct {
@@ -72,6 +77,10 @@ type Sim struct {
 	itx     map[*simTable]*iterTxnState
 	iterSeq int
 	open    statedb.WriteTxn // the write transaction in flight (aborted by Recover)
+	metrics *metricsRec
+	forceFull bool
+	gcChecks int
+	gcPauses int
 	nextN   uint64
 	fp      *vkit.Hash64
 	Log     []string
@@ -674,6 +683,9 @@ func (s *Sim) RunTxn(i int) {
 		t.committed = working[t]
 	}
 	s.commitIterators(what)
+	for _, t := range set {
+		s.noTrackerCheck(what, t)
+	}
 	s.watchesAfterCommit(what)
 	fresh := s.DB.ReadTxn()
 	for _, t := range s.Tabs {
@@ -709,7 +721,8 @@ func (s *Sim) RunTxn(i int) {
 func NewSim(r *vkit.Run, idx int, o Opts) *Sim {
 	s := &Sim{R: r, Idx: idx, Rng: r.Rand(idx), O: o, fp: vkit.NewHash()}
 	s.Handle = fmt.Sprintf("sim%d", idx)
-	s.DB = statedb.New().NewHandle(s.Handle)
+	s.metrics = newMetricsRec()
+	s.DB = statedb.New(statedb.WithMetrics(s.metrics)).NewHandle(s.Handle)
 	pick := o.SchemaPick
 	if pick == nil {
 		for i := range Schemas {
@@ -724,7 +737,7 @@ func NewSim(r *vkit.Run, idx int, o Opts) *Sim {
 		if err != nil {
 			panic(err)
 		}
-		s.Tabs = append(s.Tabs, &simTable{name: name, schema: sc, tbl: tbl, committed: &TableModel{Objs: map[string]MObj{}}})
+		s.Tabs = append(s.Tabs, &simTable{name: name, schema: sc, tbl: tbl, committed: &TableModel{Objs: map[string]MObj{}}, settled: true})
 		s.Logf("table %s schema %s", name, sc.Name)
 	}
 	return s
@@ -738,6 +751,8 @@ func (s *Sim) Finish(nontrivial bool) {
 	s.R.Count("return_value_checks", int64(s.retChecks))
 	s.R.Count("revision_checks", int64(s.revChecks))
 	s.R.Count("change_stream_checks", int64(s.changeChecks))
+	s.R.Count("gc_checks", int64(s.gcChecks))
+	s.R.Count("gc_paused_at_afterScan", int64(s.gcPauses))
 	s.R.Count("watch_handouts", int64(s.watchHandouts))
 	s.R.Count("watch_verdicts", int64(s.watchVerdicts))
 	s.R.Count("commits", int64(s.commits))
@@ -759,6 +774,8 @@ func (s *Sim) RevChecks() int    { return s.revChecks }
 func (s *Sim) ChangeChecks() int { return s.changeChecks }
 func (s *Sim) Commits() int      { return s.commits }
 func (s *Sim) WatchVerdicts() int { return s.watchVerdicts }
+func (s *Sim) GCChecks() int      { return s.gcChecks }
+func (s *Sim) GCPauses() int      { return s.gcPauses }
 func (s *Sim) Aborts() int       { return s.aborts }
 
 // Recover turns a panic inside the history into a violation of class "panic" (always reported).
